@@ -11,7 +11,10 @@ decision under atomically) and the worker's result mapping, by path
 enumeration of one worker iteration with a taint/validation domain (WRK-2:
 every path writes a status; the value is a TaskStatus constant or was
 validated; failed-validation paths never write DONE; do() once per dequeue;
-WRK-1: no exception leaves the iteration, task_done exactly once).
+WRK-1: no exception leaves the iteration, task_done exactly once). REL-2: a
+DONE task is kept only when no hard dependency failed or was skipped. A status
+validated before the rest of the result failed validation must not be written;
+raw writes of the worker into the environment sit under the lock (LOCK).
 Not decided: equality of the final status map across interleavings as such
 (it follows from these rules by argument, no rule computes it).
 '''
